@@ -970,6 +970,28 @@ func scripts() []*script {
 			join()
 			st.logf("write %s; read %s intact=%v end=%s", wcls, show(d), string(d) == string(p), end)
 		}},
+		{name: "s27-stream-limit-error-as-hysteria-sees-it", maxStreams: 2, expectMismatch: true, body: func(st stack) {
+			// D5 in DEVIATIONS.md: quic-go returns a POINTER (&StreamLimitReachedError{}), which
+			// hysteria's errors.Is(err, quic.StreamLimitReachedError{}) does not match.
+			c, _ := st.connect()
+			for i := 0; i < 3; i++ {
+				s, err := c.OpenStream()
+				st.logf("OpenStream #%d %s", i+1, classify(err))
+				if err == nil {
+					_, _ = s.Write([]byte("x"))
+				}
+			}
+		}},
+		{name: "s28-unread-stream-data-is-lost-on-connection-close", body: func(st stack) {
+			c, s := st.connect()
+			cs, ss := openPair(st, c, s)
+			st.logf("write %s", write1(cs, "abc"))
+			d, cls := readN(ss, 1)
+			st.logf("peer reads one byte %s %s", show(d), cls) // so "bc" is buffered at the receiver
+			_ = c.CloseWithError(h3NoError, "")
+			st.logf("peer AcceptStream %s", acceptClass(s))
+			st.logf("peer Read of the buffered rest: %s", read1(ss))
+		}},
 		{name: "s29-queued-datagram-after-local-close", expectMismatch: true, body: func(st stack) {
 			// D4 in DEVIATIONS.md: quic-go's datagramQueue.Receive hands out datagrams that were
 			// queued before the close; the fake fails ReceiveDatagram as soon as the conn is closed.
